@@ -75,8 +75,8 @@ SETS["dup_names"] = {
 SETS["introspect"] = {
     "Any.j2": "INTROSPECT {{ T.full_name }}\n"
     "{% for k, v in options.items() %}option {{ k }}={{ v }}\n{% endfor %}"
-    "{% for l in ln %}language {{ l }}\n{% endfor %}"
-    "{% for k in uses_queries %}uses {{ k }}\n{% endfor %}"
+    "{% for l, v in ln.items() %}language {{ l }}\n{% endfor %}"
+    "{% for k, v in uses_queries.items() %}uses {{ k }}\n{% endfor %}"
     "sets {{ nunavut.template_sets | length }} support {{ nunavut.support.namespace }} é–中\n",
     "Namespace.j2": _NS,
 }
